@@ -34,4 +34,23 @@ def classify (old new : Project) : List (String × String) :=
     | none => some (n, "removed")
     | some _ => none)
 
+/-- a configured process and the instance that runs it (instances are numbered in launch order) -/
+structure Inst where
+  name : String
+  cfg : Config
+  id : Nat
+deriving Repr, DecidableEq
+
+def findInst (cur : List Inst) (n : String) : Option Inst := cur.find? (·.name = n)
+
+/-- effect of `UpdateProject` on the configured set: an unchanged process keeps its instance (and
+    its old configuration), a changed one is removed and added again (new instance), a new one is
+    added, and whatever the new project does not name is removed. New instances get the numbers
+    `next, next+1, …` in the order of the new project. -/
+def applyUpdate (cur : List Inst) (new : Project) (next : Nat) : List Inst :=
+  new.mapIdx fun i (nc : String × Config) =>
+    match findInst cur nc.1 with
+    | some old => if cfgEqual old.cfg nc.2 then old else { name := nc.1, cfg := nc.2, id := next + i }
+    | none => { name := nc.1, cfg := nc.2, id := next + i }
+
 end PC.Update
